@@ -145,35 +145,81 @@ Proof.
     + eapply Hc1; [exact Hin|exact Hl|]. destruct Hobj as (m & Hm). eapply obj_persist; eassumption.
 Qed.
 
-(* ---- the shape of mergeResult on a response that parses ---- *)
-Lemma merge_result_nullish : forall f res items batch s resp,
-  rs_err res = false -> rs_body res = BJson resp -> is_nullish (get_loc (f_datapath f) resp) = true ->
-  ls_data (merge_result f res items batch s) = ls_data s /\ ls_hard (merge_result f res items batch s) = ls_hard s.
+(* ---- the shape of mergeResult on a response that parses, has RFC numbers and the right entity count ---- *)
+Definition count_bad (f : fetch) (resp : json) : bool :=
+  match f_kind f, get_loc [PName k_data; PName k_entities] resp with
+  | FEntity, Some (JArr l) => negb (Nat.eqb (length l) 1)
+  | _, _ => false
+  end.
+
+(* an entity answered with null: "not found", silently nothing *)
+Lemma merge_result_null_entity : forall f res items batch s resp ents,
+  rs_err res = false -> rs_body res = BJson resp -> valid_numbers resp = true -> count_bad f resp = false ->
+  is_nullish (get_loc (f_datapath f) resp) = true -> f_kind f <> FSingle ->
+  get_loc [PName k_data; PName k_entities] resp = Some (JArr ents) ->
+  exists s1, ls_data s1 = ls_data s /\ ls_hard s1 = ls_hard s /\ ls_errored s1 = ls_errored s /\ merge_result f res items batch s = s1.
 Proof.
-  intros f res items batch s resp He Hb Hn. unfold merge_result. rewrite He, Hb, Hn.
-  destruct (match get_loc [PName k_errors] resp with Some (JArr (_ :: _)) => true | _ => false end);
-    destruct (is_entity_kind (f_kind f) && _); try (split; reflexivity);
-    cbn [negb andb]; try (destruct (non2xx (rs_status res)); split; reflexivity); split; reflexivity.
+  intros f res items batch s resp ents He Hb Hv Hcb Hn Hk Hent. unfold merge_result. unfold count_bad in Hcb.
+  rewrite He, Hb, Hv, Hent in *. cbn [negb]. rewrite Hcb, Hn.
+  assert (Hek : is_entity_kind (f_kind f) = true) by (destruct (f_kind f); [congruence|reflexivity|reflexivity]).
+  rewrite Hek. cbn [andb].
+  eexists. split; [|split; [|split; [|reflexivity]]];
+    destruct (match get_loc [PName k_errors] resp with Some (JArr (_ :: _)) => true | _ => false end); reflexivity.
 Qed.
 
 Lemma merge_result_one : forall f res l s resp rd,
-  rs_err res = false -> rs_body res = BJson resp -> get_loc (f_datapath f) resp = Some rd -> is_nullish (Some rd) = false ->
-  exists s1, ls_data s1 = ls_data s /\ ls_hard s1 = ls_hard s /\ merge_result f res [l] None s = merge_target f s1 l rd.
+  rs_err res = false -> rs_body res = BJson resp -> valid_numbers resp = true -> count_bad f resp = false ->
+  get_loc (f_datapath f) resp = Some rd -> is_nullish (Some rd) = false ->
+  exists s1, ls_data s1 = ls_data s /\ ls_hard s1 = ls_hard s /\ ls_errored s1 = ls_errored s /\ merge_result f res [l] None s = merge_target f s1 l rd.
 Proof.
-  intros f res l s resp rd He Hb Hg Hn. unfold merge_result. rewrite He, Hb, Hg, Hn.
-  eexists. split; [|split; [|reflexivity]];
+  intros f res l s resp rd He Hb Hv Hcb Hg Hn. unfold merge_result. unfold count_bad in Hcb. rewrite He, Hb, Hv. cbn [negb]. rewrite Hcb, Hg, Hn.
+  eexists. split; [|split; [|split; [|reflexivity]]];
     destruct (match get_loc [PName k_errors] resp with Some (JArr (_ :: _)) => true | _ => false end); reflexivity.
 Qed.
 
 Lemma merge_result_many : forall f res items bs s resp e es,
-  rs_err res = false -> rs_body res = BJson resp -> get_loc (f_datapath f) resp = Some (JArr (e :: es)) ->
+  rs_err res = false -> rs_body res = BJson resp -> valid_numbers resp = true -> count_bad f resp = false ->
+  get_loc (f_datapath f) resp = Some (JArr (e :: es)) ->
   items <> [] -> length bs = length (e :: es) ->
-  exists s1, ls_data s1 = ls_data s /\ ls_hard s1 = ls_hard s /\ merge_result f res items (Some bs) s = merge_buckets f s1 bs (e :: es).
+  exists s1, ls_data s1 = ls_data s /\ ls_hard s1 = ls_hard s /\ ls_errored s1 = ls_errored s /\ merge_result f res items (Some bs) s = merge_buckets f s1 bs (e :: es).
 Proof.
-  intros f res items bs s resp e es He Hb Hg Hne Hlen. unfold merge_result. rewrite He, Hb, Hg. cbn [is_nullish].
+  intros f res items bs s resp e es He Hb Hv Hcb Hg Hne Hlen. unfold merge_result. unfold count_bad in Hcb. rewrite He, Hb, Hv. cbn [negb]. rewrite Hcb, Hg. cbn [is_nullish].
   destruct items as [|l [|l2 r]]; [congruence| |]; rewrite Hlen, Nat.eqb_refl;
-    (eexists; split; [|split; [|reflexivity]];
+    (eexists; split; [|split; [|split; [|reflexivity]]];
      destruct (match get_loc [PName k_errors] resp with Some (JArr (_ :: _)) => true | _ => false end); reflexivity).
+Qed.
+
+Lemma merge_target_errored' : forall f s l src, ls_errored (merge_target f s l src) = ls_errored s.
+Proof. exact merge_target_errored. Qed.
+
+(* the clean responses have RFC numbers when the answers do *)
+Definition answers_valid (answer : N -> bytes -> json * list json) (root_answer : N -> json * list json) : Prop :=
+  (forall id rep, valid_numbers (fst (answer id rep)) = true /\ forallb valid_numbers (snd (answer id rep)) = true) /\
+  (forall id, valid_numbers (fst (root_answer id)) = true /\ forallb valid_numbers (snd (root_answer id)) = true).
+
+Lemma valid_numbers_arr : forall l, valid_numbers (JArr l) = forallb valid_numbers l.
+Proof. induction l as [|x l IH]; simpl; [reflexivity|]. f_equal; try exact IH. Qed.
+
+Lemma clean_valid : forall answer root_answer rq single resp, answers_valid answer root_answer ->
+  rs_body (clean_response answer root_answer rq single) = BJson resp -> valid_numbers resp = true.
+Proof.
+  intros answer root_answer rq single resp [Ha Hr] Hb. unfold clean_response in Hb. destruct single.
+  - destruct (root_answer (rq_fetch rq)) as [d errs] eqn:RA. inversion Hb; subst resp. clear Hb.
+    destruct (Hr (rq_fetch rq)) as [H1 H2]. rewrite RA in H1, H2. cbn [fst snd] in H1, H2.
+    unfold errors_member. destruct errs as [|e0 er]; cbn.
+    + rewrite H1. reflexivity.
+    + rewrite H1. change (valid_numbers (JArr (e0 :: er)) && true = true). rewrite valid_numbers_arr, H2. reflexivity.
+  - inversion Hb; subst resp. clear Hb.
+    assert (H1 : forallb valid_numbers (map fst (map (answer (rq_fetch rq)) (rq_reps rq))) = true).
+    { rewrite forallb_forall. intros x Hx. apply in_map_iff in Hx as (p & <- & Hp). apply in_map_iff in Hp as (rep & <- & _). apply Ha. }
+    assert (H2 : forallb valid_numbers (flat_map snd (map (answer (rq_fetch rq)) (rq_reps rq))) = true).
+    { rewrite forallb_forall. intros x Hx. apply in_flat_map in Hx as (p & Hp & Hx). apply in_map_iff in Hp as (rep & <- & _).
+      destruct (Ha (rq_fetch rq) rep) as [_ H]. rewrite forallb_forall in H. apply H. exact Hx. }
+    unfold errors_member. destruct (flat_map snd (map (answer (rq_fetch rq)) (rq_reps rq))) as [|e0 er]; cbn.
+    + change (valid_numbers (JArr (map fst (map (answer (rq_fetch rq)) (rq_reps rq)))) && true && true = true).
+      rewrite valid_numbers_arr, H1. reflexivity.
+    + change (valid_numbers (JArr (map fst (map (answer (rq_fetch rq)) (rq_reps rq)))) && true && (valid_numbers (JArr (e0 :: er)) && true) = true).
+      rewrite !valid_numbers_arr, H1, H2. reflexivity.
 Qed.
 
 (* ---- the shape of a load (analysis of prepare on the run's own data) ---- *)
@@ -265,6 +311,8 @@ Section Unaff.
   Hypothesis Hloud : forall id k, F id = Some k -> loud (kind_of id) k = true.
   Hypothesis Hans : forall id rep, json_wf (fst (answer id rep)) = true.
   Hypothesis Hroot : forall id, json_wf (fst (root_answer id)) = true.
+  Hypothesis Hrobj : roots_are_objects root_answer.
+  Hypothesis Hval : answers_valid answer root_answer.
 
   Let e0 := clean_exchange answer root_answer kind_of.
   Let eF := faulty_exchange answer root_answer kind_of F.
@@ -293,8 +341,9 @@ Section Unaff.
     json_wf (ls_data sF) = true -> (exists m, ls_data sF = JObj m) ->
     let sF' := fst (run_fetch unit eF f (sF, tt)) in
     sub_b (ls_data sF) (ls_data sF') = true /\ json_wf (ls_data sF') = true /\
-    (F (f_id f) = None -> should_skip f sF = false -> ls_hard sF' = false ->
-     big_facts answer root_answer f (ls_data sF) (ls_data sF')).
+    (F (f_id f) = None -> should_skip f sF = false ->
+       ls_errored sF' = ls_errored sF /\
+       (ls_hard sF' = false -> big_facts answer root_answer f (ls_data sF) (ls_data sF'))).
   Proof.
     intros f s0 sF HR Hok Hstep Wd (m0 & Hm0). cbv zeta.
     destruct (fetch_ok_inv kind_of f Hok) as (Hk & Hd & Hnt & Hmp & Hkind).
@@ -309,7 +358,7 @@ Section Unaff.
     pose proof (prepare_data kind_of f (ls_data sF) (select_items (ls_data sF) (f_path f)) Hok) as Hpd.
     destruct (prepare f (ls_data sF) (select_items (ls_data sF) (f_path f))) as [d|dF rqF batchF] eqn:HP.
     { cbn [fst]. subst d. destruct (Hsame (set_data sF (ls_data sF)) eq_refl) as [A B]. split; [exact A|]. split; [exact B|].
-      intros _ _ _. split; [exact Hone|]. rewrite (targets_pskip f _ _ Hok HP). intros l src []. }
+      intros _ _. split; [reflexivity|]. intros _. split; [exact Hone|]. rewrite (targets_pskip f _ _ Hok HP). intros l src []. }
     subst dF.
     (* the fault-free side, for the bounds *)
     destruct (targets_contained answer root_answer kind_of f s0 Hstep) as (Hinfl0 & Hone0 & Hcont0).
@@ -319,9 +368,7 @@ Section Unaff.
     { destruct (f_kind f) eqn:K; [eapply load_sim_single|eapply load_sim_entity|eapply load_sim_batch]; try eassumption; exact (R_sub _ _ HR). }
     destruct Hload as (_ & HneF & Hone1 & Hcont).
     pose proof (shape_of_load kind_of f _ _ _ _ Hok HP) as Hshape.
-    destruct (prepare_request _ _ _ _ _ _ HP) as [Hrq Hbatch].
-    destruct (fetch_sim answer root_answer kind_of F Hloud f s0 sF HR Hok Hstep) as [HsubD _ _ _].
-    unfold run_fetch in HsubD. rewrite SK, HP in HsubD.
+    destruct (prepare_request _ _ _ _ _ _ HP) as (Hrq & Hbatch & _).
     unfold eF, faulty_exchange in *. rewrite Hrq, Hk in *.
     set (cl := clean_response answer root_answer rqF match f_kind f with FSingle => true | _ => false end) in *.
     set (D := ls_data (fst (run_fetch unit (clean_exchange answer root_answer kind_of) f (s0, tt)))) in *.
@@ -332,71 +379,73 @@ Section Unaff.
       set (res := apply_fault k cl) in *. set (sF2 := if rs_err res then add_errored sF1 (f_id f) else sF1) in *.
       assert (HdF2 : ls_data sF2 = ls_data sF) by (subst sF2; destruct (rs_err res); reflexivity).
       assert (Hsm : ls_data (merge_result f res (select_items (ls_data sF) (f_path f)) batchF sF2) = ls_data sF).
-      { rewrite <- HdF2. subst res. specialize (Hloud _ _ EF). rewrite Hk in Hloud.
-        destruct (loud_body k) eqn:LB; [apply loud_body_data; assumption|].
-        assert (Hc : (k = FtCountLess \/ k = FtCountMore) /\ f_kind f = FBatch).
-        { destruct k; try discriminate; simpl in Hloud; destruct (f_kind f); try discriminate; auto. }
-        destruct Hc as [Hc Hfk]. destruct (Hbatch Hfk) as (bs & Hne & Hreps & Hb). subst batchF.
-        subst cl. rewrite Hfk. apply count_data; try assumption. rewrite Hd, Hfk. reflexivity. }
+      { rewrite <- HdF2. subst res cl. specialize (Hloud _ _ EF). rewrite Hk in Hloud.
+        apply (proj2 (loud_outcome answer root_answer f k _ _ _ _ _ _ sF2 Hrobj Hd Hloud HP)). }
       destruct (Hsame _ Hsm) as [A B]. split; [exact A|]. split; [exact B|]. intros E. discriminate. }
     (* unfaulted: the clean response *)
     assert (HsD : sub_b (ls_data sF) D = true) by (eapply sub_trans; [exact (R_sub _ _ HR)|exact Hinfl0]).
     change (if rs_err cl then add_errored sF1 (f_id f) else sF1) with sF1 in *.
     assert (Hd1 : ls_data sF1 = ls_data sF) by reflexivity.
+    assert (He1 : ls_errored sF1 = ls_errored sF) by reflexivity.
     unfold load_shape in Hshape. unfold clean_of in Hcont. fold cl in Hcont.
     destruct (f_kind f) eqn:K.
     - (* single *)
       destruct Hshape as (Hit & Hb & Hq). rewrite Hb in Hcont |- *. rewrite Hit in Hcont |- *. subst rqF.
       destruct (clean_single_rdata answer root_answer (mk_request f [])) as (resp & Hbody & Herr & Hrd). fold cl in Hbody, Herr.
       cbn [rq_fetch mk_request] in Hrd. rewrite <- Hd in Hrd.
+      pose proof (clean_valid answer root_answer (mk_request f []) true resp Hval Hbody) as Hvn.
+      assert (Hcb : count_bad f resp = false) by (unfold count_bad; rewrite K; reflexivity).
       set (rd := fst (root_answer (f_id f))) in *.
-      destruct (is_nullish (Some rd)) eqn:Nl.
-      + destruct (merge_result_nullish f cl [[]] None sF1 resp Herr Hbody) as [E1 E2]; [rewrite Hrd; exact Nl|].
-        rewrite E1. destruct (Hsame sF1 Hd1) as [A B]. rewrite Hd1. split; [exact A|]. split; [exact B|].
-        intros _ _ _. split; [intros E; congruence|].
-        intros l src Hin. unfold targets in Hin. rewrite K, HP, Hit in Hin. destruct Hin as [E|[]]. inversion E; subst l src. exists (ls_data sF). split; [reflexivity|].
-        fold rd. destruct rd; try discriminate. reflexivity.
-      + destruct (merge_result_one f cl [] sF1 resp rd Herr Hbody Hrd Nl) as (s1 & Es1 & Eh1 & Emr).
-        match goal with |- context [merge_result f cl ?it None sF1] => replace (merge_result f cl it None sF1) with (merge_target f s1 [] rd) by (symmetry; exact Emr) end.
-        destruct (Hcont resp rd Herr Hbody Hrd [] eq_refl) as (w & Hw & Hrw).
-        destruct (merge_target_facts f s1 [] rd D w Hmp) as (A1 & A2 & A3 & A4); try assumption.
-        { rewrite Es1, Hd1. exact HsD. } { rewrite Es1, Hd1. exact Wd. } { apply Hroot. }
-        rewrite Es1, Hd1 in A2. split; [exact A2|]. split; [exact A3|].
-        intros _ _ Hh. split; [intros E; congruence|].
-        intros l src Hin. unfold targets in Hin. rewrite K, HP, Hit in Hin. destruct Hin as [E|[]]. inversion E; subst l src.
-        destruct (A4 Hh) as [_ Hc]. apply Hc. exists m0. rewrite Es1, Hd1. cbn [get_loc]. rewrite Hm0. reflexivity.
+      destruct (Hrobj (f_id f)) as (mr & Hmr). fold rd in Hmr.
+      assert (Nl : is_nullish (Some rd) = false) by (rewrite Hmr; reflexivity).
+      destruct (merge_result_one f cl [] sF1 resp rd Herr Hbody Hvn Hcb Hrd Nl) as (s1 & Es1 & Eh1 & Ee1 & Emr).
+      match goal with |- context [merge_result f cl ?it None sF1] => replace (merge_result f cl it None sF1) with (merge_target f s1 [] rd) by (symmetry; exact Emr) end.
+      destruct (Hcont resp rd Herr Hbody Hrd [] eq_refl) as (w & Hw & Hrw).
+      destruct (merge_target_facts f s1 [] rd D w Hmp) as (A1 & A2 & A3 & A4); try assumption.
+      { rewrite Es1, Hd1. exact HsD. } { rewrite Es1, Hd1. exact Wd. } { apply Hroot. }
+      rewrite Es1, Hd1 in A2. split; [exact A2|]. split; [exact A3|].
+      intros _ _. split; [rewrite merge_target_errored, Ee1; exact He1|]. intros Hh. split; [intros E; congruence|].
+      intros l src Hin. unfold targets in Hin. rewrite K, HP, Hit in Hin. destruct Hin as [E|[]]. inversion E; subst l src.
+      destruct (A4 Hh) as [_ Hc]. apply Hc. exists m0. rewrite Es1, Hd1. cbn [get_loc]. rewrite Hm0. reflexivity.
     - (* entity *)
       destruct Hshape as (l & b & m & Hit & Hb & Hq & Hgl). rewrite Hb in Hcont |- *. rewrite Hit in Hcont |- *. subst rqF.
       destruct (clean_entities_rdata answer root_answer (mk_request f [b])) as (resp & Hbody & Herr & Hrd0). fold cl in Hbody, Herr.
       cbn [rq_fetch rq_reps mk_request map] in Hrd0.
+      pose proof (clean_valid answer root_answer (mk_request f [b]) false resp Hval Hbody) as Hvn.
+      assert (Hcb : count_bad f resp = false).
+      { unfold count_bad. rewrite K. change [PName k_data; PName k_entities] with (datapath_of FBatch). rewrite Hrd0. reflexivity. }
       set (rd := fst (answer (f_id f) b)) in *.
       assert (Hrd : get_loc (f_datapath f) resp = Some rd).
       { rewrite Hd. change (datapath_of FEntity) with (datapath_of FBatch ++ [PIdx 0]). rewrite get_loc_app, Hrd0. reflexivity. }
       assert (Htg : targets answer root_answer f (ls_data sF) = [(l, rd)]).
       { unfold targets. rewrite K, HP, Hit. reflexivity. }
       destruct (is_nullish (Some rd)) eqn:Nl.
-      + destruct (merge_result_nullish f cl [l] None sF1 resp Herr Hbody) as [E1 E2]; [rewrite Hrd; exact Nl|].
+      + destruct (merge_result_null_entity f cl [l] None sF1 resp [rd] Herr Hbody Hvn Hcb) as (s1 & E1 & E2 & E3 & Emr);
+          [rewrite Hrd; exact Nl|rewrite K; discriminate|exact Hrd0|].
+        match goal with |- context [merge_result f cl ?it None sF1] => replace (merge_result f cl it None sF1) with s1 by (symmetry; exact Emr) end.
         rewrite E1. destruct (Hsame sF1 Hd1) as [A B]. rewrite Hd1. split; [exact A|]. split; [exact B|].
-        intros _ _ _. split; [intros _; exact (Hone eq_refl)|]. rewrite Htg. intros l' src [E|[]]. inversion E; subst l' src.
+        intros _ _. split; [rewrite E3; exact He1|]. intros _. split; [intros _; exact (Hone eq_refl)|]. rewrite Htg. intros l' src [E|[]]. inversion E; subst l' src.
         exists (JObj m). split; [exact Hgl|]. destruct rd; try discriminate. reflexivity.
-      + destruct (merge_result_one f cl l sF1 resp rd Herr Hbody Hrd Nl) as (s1 & Es1 & Eh1 & Emr).
+      + destruct (merge_result_one f cl l sF1 resp rd Herr Hbody Hvn Hcb Hrd Nl) as (s1 & Es1 & Eh1 & Ee1 & Emr).
         match goal with |- context [merge_result f cl ?it None sF1] => replace (merge_result f cl it None sF1) with (merge_target f s1 l rd) by (symmetry; exact Emr) end.
         destruct (Hcont resp rd Herr Hbody Hrd l eq_refl) as (w & Hw & Hrw).
         destruct (merge_target_facts f s1 l rd D w Hmp) as (A1 & A2 & A3 & A4); try assumption.
         { rewrite Es1, Hd1. exact HsD. } { rewrite Es1, Hd1. exact Wd. } { apply Hans. }
         rewrite Es1, Hd1 in A2. split; [exact A2|]. split; [exact A3|].
-        intros _ _ Hh. split; [intros _; exact (Hone eq_refl)|]. rewrite Htg. intros l' src [E|[]]. inversion E; subst l' src.
+        intros _ _. split; [rewrite merge_target_errored, Ee1; exact He1|]. intros Hh. split; [intros _; exact (Hone eq_refl)|]. rewrite Htg. intros l' src [E|[]]. inversion E; subst l' src.
         destruct (A4 Hh) as [_ Hc]. apply Hc. exists m. rewrite Es1, Hd1. exact Hgl.
     - (* batch *)
       destruct Hshape as (bsF & Hbs & HneB & Hq & Hb & Hobj). subst rqF batchF.
       destruct (clean_entities_rdata answer root_answer (mk_request f (map fst bsF))) as (resp & Hbody & Herr & Hrd0). fold cl in Hbody, Herr.
       cbn [rq_fetch rq_reps mk_request] in Hrd0. rewrite <- Hd in Hrd0.
+      pose proof (clean_valid answer root_answer (mk_request f (map fst bsF)) false resp Hval Hbody) as Hvn.
+      assert (Hcb : count_bad f resp = false) by (unfold count_bad; rewrite K; reflexivity).
       set (ents := map (fun rep => fst (answer (f_id f) rep)) (map fst bsF)) in *.
       destruct ents as [|e es] eqn:Eents.
       { destruct bsF; [congruence|discriminate]. }
       assert (Hlen : length (map snd bsF) = length (e :: es)).
       { rewrite <- Eents. unfold ents. rewrite !map_length. reflexivity. }
-      destruct (merge_result_many f cl (select_items (ls_data sF) (f_path f)) (map snd bsF) sF1 resp e es Herr Hbody Hrd0 HneF Hlen) as (s1 & Es1 & Eh1 & Emr).
+      destruct (merge_result_many f cl (select_items (ls_data sF) (f_path f)) (map snd bsF) sF1 resp e es Herr Hbody Hvn Hcb Hrd0 HneF Hlen) as (s1 & Es1 & Eh1 & Ee1 & Emr).
       rewrite Emr.
       assert (Wents : forallb json_wf (e :: es) = true).
       { rewrite <- Eents. unfold ents. rewrite forallb_forall. intros x Hx. apply in_map_iff in Hx as (rep & <- & _). apply Hans. }
@@ -404,7 +453,7 @@ Section Unaff.
       { rewrite Es1, Hd1. exact HsD. } { rewrite Es1, Hd1. exact Wd. }
       { intros locs src Hin l Hl. eapply (Hcont resp (JArr (e :: es)) Herr Hbody Hrd0 (e :: es) eq_refl); eassumption. }
       rewrite Es1, Hd1 in A2. split; [exact A2|]. split; [exact A3|].
-      intros _ _ Hh. split; [intros E; congruence|].
+      intros _ _. split; [rewrite merge_buckets_errored, Ee1; exact He1|]. intros Hh. split; [intros E; congruence|].
       intros l src Hin. unfold targets in Hin. rewrite K, Hbs in Hin.
       apply in_flat_map in Hin as ((b, locs) & Hinb & Hl). cbn [fst snd] in Hl. apply in_map_iff in Hl as (l' & E & Hl'). inversion E; subst l' src.
       destruct (A4 Hh) as [_ Hc]. eapply Hc.
@@ -430,27 +479,10 @@ Proof.
   induction bs as [|b bs IH]; intros batch s H; simpl; [exact H|].
   destruct batch; [exact H|]. apply IH. apply fold_merge_target_hard. exact H.
 Qed.
-Ltac hard_solve H := first [ exact H | apply merge_target_hard; exact H | apply merge_pairwise_hard; exact H | apply merge_buckets_hard; exact H ].
 Lemma merge_result_hard : forall f res items batch s, ls_hard s = true -> ls_hard (merge_result f res items batch s) = true.
 Proof.
-  intros f res items batch s H. unfold merge_result.
-  destruct (rs_err res); [hard_solve H|].
-  destruct (rs_body res) as [| |resp]; [hard_solve H|destruct (non2xx (rs_status res)); hard_solve H|].
-  set (he := match get_loc [PName k_errors] resp with Some (JArr (_ :: _)) => true | _ => false end).
-  set (s1 := if he then add_error s LE_FETCH f else s).
-  assert (H1 : ls_hard s1 = true) by (subst s1; destruct he; exact H).
-  clearbody s1.
-  destruct (is_nullish (get_loc (f_datapath f) resp)).
-  - destruct (is_entity_kind (f_kind f) && _); [hard_solve H1|].
-    destruct (negb he && non2xx (rs_status res)); [hard_solve H1|]. destruct (negb he); hard_solve H1.
-  - destruct (get_loc (f_datapath f) resp) as [rd|]; [|hard_solve H1].
-    destruct items as [|l [|l2 r]].
-    + destruct rd; hard_solve H1.
-    + destruct batch as [bs|].
-      * destruct rd as [| | | |[|b0 b]|]; try hard_solve H1. destruct (Nat.eqb _ _); hard_solve H1.
-      * hard_solve H1.
-    + destruct rd as [| | | |[|b0 b]|]; try hard_solve H1.
-      destruct batch as [bs|]; destruct (Nat.eqb _ _); hard_solve H1.
+  intros f res items batch s H. mr_cases;
+    first [ exact H | apply merge_target_hard; exact H | apply merge_pairwise_hard; exact H | apply merge_buckets_hard; exact H ].
 Qed.
 
 Section Sticky.
@@ -473,21 +505,15 @@ Section Sticky.
   Qed.
 End Sticky.
 
-Lemma run_fetch_errored_cases : forall St (e : St -> request -> response * St) f s x id,
-  In id (ls_errored (fst (run_fetch St e f (s, x)))) ->
-  In id (ls_errored s) \/
-  (id = f_id f /\ (should_skip f s = true \/
-     exists d rq b, prepare f (ls_data s) (select_items (ls_data s) (f_path f)) = PLoad d rq b /\ rs_err (fst (e x rq)) = true)).
+Lemma run_fetch_errored_incl : forall St (e : St -> request -> response * St) f s x id,
+  In id (ls_errored (fst (run_fetch St e f (s, x)))) -> In id (ls_errored s) \/ id = f_id f.
 Proof.
   intros St e f s x id H. unfold run_fetch in H.
-  destruct (should_skip f s) eqn:SK.
-  { cbn [fst ls_errored add_errored] in H. destruct H as [<-|H]; [right; split; [reflexivity|left; reflexivity]|left; exact H]. }
-  destruct (prepare f (ls_data s) (select_items (ls_data s) (f_path f))) as [d|d rq b] eqn:HP; [left; exact H|].
-  destruct (e x rq) as [res x'] eqn:E. cbn [fst] in H. rewrite merge_result_errored in H.
-  destruct (rs_err res) eqn:Er.
-  - cbn [ls_errored add_errored add_request set_data] in H. destruct H as [<-|H]; [|left; exact H].
-    right. split; [reflexivity|]. right. exists d, rq, b. split; [reflexivity|]. rewrite E. exact Er.
-  - left. exact H.
+  destruct (should_skip f s).
+  { cbn [fst ls_errored add_errored] in H. destruct H as [<-|H]; [right; reflexivity|left; exact H]. }
+  destruct (prepare f (ls_data s) (select_items (ls_data s) (f_path f))) as [d|d rq b]; [left; exact H|].
+  destruct (e x rq) as [res x']. cbn [fst] in H. apply merge_result_errored_incl in H as [H|H]; [|right; exact H].
+  destruct (rs_err res); cbn [ls_errored add_errored add_request set_data] in H; [destruct H as [<-|H]; [right; reflexivity|left; exact H]|left; exact H].
 Qed.
 
 Section Three.
